@@ -623,6 +623,20 @@ func streamExchange(
 	chunks [][]byte,
 	yield bool,
 ) (frames [][]byte, end string) {
+	return streamExchangeHalf(s, n, addr, tc, chunks, yield, false)
+}
+
+// streamExchangeHalf is streamExchange that optionally half-closes the
+// connection after the last write.
+func streamExchangeHalf(
+	s *task,
+	n *simnet.Net,
+	addr string,
+	tc *tls.Config,
+	chunks [][]byte,
+	yield bool,
+	half bool,
+) (frames [][]byte, end string) {
 	raw, err := n.Dial(addr, n.ClientAddr(clientIP(2)))
 	if err != nil {
 		return nil, "dial:" + err.Error()
@@ -651,8 +665,17 @@ func streamExchange(
 		}
 	}
 
+	if half {
+		// The client has said all it wants to say and half-closes, as a
+		// one-shot client does; its queries are still in flight.
+		if cw, ok := c.(interface{ CloseWrite() error }); ok {
+			_ = cw.CloseWrite()
+		}
+	}
+
 	return readFrames(c, 4*time.Second)
 }
+
 
 func clientStream(s *task, n *simnet.Net, tr, addr string, items []*item, tc *tls.Config) {
 	t := s
@@ -687,8 +710,12 @@ func clientStream(s *task, n *simnet.Net, tr, addr string, items []*item, tc *tl
 			}
 		}
 
-		frames, end := streamExchange(s, n, addr, tc, chunks, true)
-		s.Logf("%s: group of %d -> %d frames, end=%s", tr, len(g), len(frames), end)
+		half := t.Chance(1, 3)
+		frames, end := streamExchangeHalf(s, n, addr, tc, chunks, true, half)
+		s.Logf("%s: group of %d (half-close=%v) -> %d frames, end=%s", tr, len(g), half, len(frames), end)
+		if half {
+			s.Probe(tr + "-half-closed-with-queries-in-flight")
+		}
 
 		byID := map[uint16][]*dns.Msg{}
 		for _, f := range frames {
